@@ -4,7 +4,7 @@ pub type Abs = Seq<Seq<u8>>;
 pub type Step = spec_fn(Abs, Blk) -> (Abs, Blk);
 
 pub trait Unsigned { const USIZE: usize; }
-pub trait ArraySize: Unsigned + Sized {}
+pub trait ArraySize: Unsigned + Sized + 'static {}
 pub trait BlockSizes: ArraySize {
     proof fn block_size_bounds() ensures 1 <= Self::USIZE <= 255;
 }
